@@ -131,7 +131,10 @@ Definition cfw_for (defs : list odef) (x : string) : option (list nat) :=
 Definition mk_feat (name : string) (o : ostate) (cf : option (list nat)) (ty : option nat) (child : option ostate) : feat :=
   {| f_name := name; f_opt := o; f_domain := None; f_cfw := cf; f_dtype := ty; f_child := child; f_child_inf := None |}.
 
-(* Feature.__eq__ (no Domain objects in the fragment, so the comparison never raises) *)
+(* Feature.__eq__ (no Domain objects in the fragment, so the comparison never raises).  The model always evaluates
+   `new == stored`; CPython evaluates `stored == new` in the set lookup of `feature not in feature_collection` and
+   `new == stored` in the wanted_uuid scan -- Feature.__eq__ is a conjunction of comparisons that are symmetric on the values of
+   the fragment (not proved: py_eq on sets is symmetric only for sets without equal elements; the tie observes the outcome) *)
 Definition feq (a b : feat) : bool := match feat_eq a b with Some true => true | _ => false end.
 
 (* build_feature_collection: `if child_options.group == {} and child_options.context == {}: child_options = Options({})` *)
@@ -191,8 +194,11 @@ Fixpoint process (fuel : nat) (iord : nat -> list oin -> list oin) (defs : list 
   end.
 
 Definition req_feat (defs : list odef) (r : oreq) : feat := mk_feat (rq_name r) (rq_opt r) (cfw_for defs (rq_name r)) (rq_ty r) None.
-(* Features.check_duplicate_feature over the requested list *)
-Fixpoint has_dup (l : list feat) : bool := match l with [] => false | x :: t => existsb (feq x) t || has_dup t end.
+(* Features.build_feature_collection over the requested list: `check_duplicate_feature(feature)` (feature in self.collection)
+   before `self.collection.append(feature)` *)
+Fixpoint has_dup_from (seen l : list feat) : bool :=
+  match l with [] => false | x :: t => existsb (feq x) seen || has_dup_from (seen ++ [x]) t end.
+Definition has_dup (l : list feat) : bool := has_dup_from [] l.
 
 Definition collect (iord : nat -> list oin -> list oin) (defs : list odef) (rq : list oreq) : list rnode + nat :=
   let fs := map (req_feat defs) rq in
